@@ -170,6 +170,15 @@ class Evaluator:
         rows = self.summary(fn)
         env = {"p%d" % (i + 1): a for i, a in enumerate(args)}
         self.evaluations += 1
+        self._depth = getattr(self, "_depth", 0) + 1
+        try:
+            if self._depth > 60:
+                raise Unmodelled("%s: calls nested deeper than 60 for %r - the recursion may not terminate for these values" % (fn.id, args))
+            return self._run(fn, rows, env, args)
+        finally:
+            self._depth -= 1
+
+    def _run(self, fn, rows, env, args):
         chosen = None
         live = rows
         k = 0
